@@ -23,7 +23,10 @@ def config(tier):
     return {
         "hashseeds": [0, 1] if q else [0, 1, 2, 3, 4, 5, 6, 7],
         "families": ["G2"],
-        "mc": [],
+        "mc": [{"module": "MCSupergates", "cfg": "MCSupergates1", "workers": 4, "timeout": 1800, "env": {} if q else {"MC_FULL": "1"}},
+               {"module": "MCSupergates", "cfg": "MCSupergatesD", "workers": 4, "timeout": 1800, "env": {} if q else {"MC_FULL": "1"}},
+               # the model reproduces known finding F-C17-shared-cones: outputs r and t = buf(r)
+               {"module": "MCSupergates", "cfg": "MCSupergatesS", "workers": 2, "timeout": 600, "expect": "violation"}],
         "shards": 8 if q else 16,
         "negctl": 10,
     }
@@ -38,6 +41,11 @@ def cases(ctx):
             yield {"op": "supergates", "c": p, "super": True, "src": "G2"}
     from .. import gen
 
+    for j in range(60 if ctx.quick else 600):
+        r = ctx.rng("C17tree", j)
+        p = proj(rand_tree(r, r.choice([4, 5, 5, 6, 7, 8])))
+        yield {"op": "supergates", "c": p, "super": False, "src": "TREE"}
+        yield {"op": "supergates", "c": p, "super": True, "src": "TREE"}
     for j in range(120 if ctx.quick else 2500):
         r = ctx.rng("C17g3", j)
         single = r.random() < 0.5
@@ -59,6 +67,34 @@ def cases(ctx):
         yield {"op": "supergates", "c": p, "super": False, "src": "G3"}
         if single:
             yield {"op": "supergates", "c": p, "super": True, "src": "G3"}
+
+
+def rand_tree(r, leaves):
+    """A fan-out-free tree of two-operand gates over `leaves` distinct primary inputs (every operand of a gate is a
+    separate sub-tree or an input: every internal gate with two gate operands heads a block of its own)."""
+    import circuitgraph as cg
+
+    c = cg.Circuit("tree")
+    pool = []
+    for i in range(leaves):
+        c.add("i%d" % i, "input")
+        pool.append("i%d" % i)
+    k = 0
+    while len(pool) > 1:
+        if r.random() < 0.7:
+            a, b = pool.pop(0), pool.pop(0)      # level by level: balanced shapes
+        else:
+            a = pool.pop(r.randrange(len(pool)))
+            b = pool.pop(r.randrange(len(pool)))
+        g = "t%d" % k
+        k += 1
+        c.add(g, r.choice(["and", "nand", "or", "nor", "xor", "xnor"]), fanin=[a, b])
+        if r.random() < 0.15:
+            c.add(g + "n", r.choice(["not", "buf"]), fanin=g)
+            g = g + "n"
+        pool.append(g)
+    c.set_output(pool[0])
+    return c
 
 
 def topo_hint(sgs):
